@@ -15,7 +15,10 @@ RULE = ('the generator of C05 (random World histories, 1-25 ops, 2-5 unrelated c
         'log (callback, instance, entity argument, world-is-this-world) is recorded per op; '
         'in 30 % of the cases one or two instances raise a marker exception from on_add / '
         'on_remove when the release of postponed events delivers them (the enabling assignment '
-        'raises, further enabling assignments follow); callbacks also query the world '
+        'raises, further enabling assignments follow) or execute dispatch_enabled = False there '
+        'and then perform 1-2 more operations (the release stops; recorded as the next operations '
+        'of the history; 8 % of the cases are built around such a halted release followed by newly '
+        'postponed notifications); callbacks also query the world '
         '(get, get_component(s), has_component, entity_exists, entities) and must not raise; '
         'the known-finding patterns K1-K3 are never generated; non-trivial = at least 3 '
         'state-changing ops and one callback')
@@ -28,7 +31,8 @@ TRUSTED = [
     'CPython dict / set semantics',
 ]
 ASSUMPTIONS = ['component callbacks do not change the world (C05 covers re-entrant callbacks) and do '
-               'not toggle dispatching during a release (C04); a callback raising inside an operation '
+               'toggle dispatching at most once per release (one nested disable by a marker instance; '
+               'general nesting is C04); a callback raising inside an operation '
                'other than the release is not generated',
                'exact component types (subtype walks are C06)',
                'every component instance sits in at most one slot at a time and create_entity '
